@@ -317,7 +317,7 @@ pub fn exec(sc: &Sc) -> Outcome {
 }
 
 pub fn scenarios(tier: Tier) -> Vec<Sc> {
-    let thorough = tier == Tier::Thorough;
+    let thorough = tier >= Tier::Thorough;
     let mut out = vec![];
     for role in [true, false] {
         for bidi in [false, true] {
@@ -360,6 +360,26 @@ pub fn scenarios(tier: Tier) -> Vec<Sc> {
                 }
             }
         }
+        if tier >= Tier::Deep {
+            // every k up to 90 for the stall positions that keep a header task busy, same kind and alternating kinds;
+            // every triple of positions on mixed kinds
+            for k in 1..=90usize {
+                for pos in [Pos::NoByte, Pos::TypeHalf, Pos::TypeOnly, Pos::SidHalf] {
+                    for bidi in [false, true] {
+                        out.push(Sc { role_server: role, stalls: vec![(bidi, pos); k], order: 0 });
+                    }
+                    out.push(Sc { role_server: role, stalls: (0..k).map(|i| (i % 2 == 0, pos)).collect(), order: (k % 3) as u8 });
+                }
+            }
+            for p1 in ALL_POS {
+                for p2 in ALL_POS {
+                    for p3 in ALL_POS {
+                        out.push(Sc { role_server: role, stalls: vec![(true, p1), (false, p2), (true, p3)], order: 1 });
+                        out.push(Sc { role_server: role, stalls: vec![(false, p1), (true, p2), (false, p3)], order: 0 });
+                    }
+                }
+            }
+        }
         if thorough {
             for p1 in ALL_POS {
                 for p2 in ALL_POS {
@@ -369,7 +389,7 @@ pub fn scenarios(tier: Tier) -> Vec<Sc> {
             }
         }
     }
-    out
+    dedup(out, |s| s.to_json().to_string())
 }
 
 pub fn run_check(args: &Args) -> i32 {
